@@ -1,8 +1,80 @@
-(** Property C24 - placeholder while the proofs are being written. *)
-From Coq Require Import ZArith List.
-From LV Require Import Base.Conc Base.Events Model.Vyukov Model.Pools.
+(** Property C24 — "vyukov_queue_pool, lazy_vyukov_queue_pool, bounded_vyukov_queue_pool and pool_allocator never
+    return an object that is currently allocated to another holder.  Deallocated objects become available again."
+
+    Only statements here; proofs live in LV.Proofs.Pools* (on top of the Vyukov queue invariants of
+    LV.Proofs.VyukovCore).  Model: LV.Model.Pools (kind 0 vyukov_queue_pool, 1 lazy_vyukov_queue_pool, 2
+    bounded_vyukov_queue_pool; pool_allocator forwards to them) over LV.Model.Vyukov.
+
+    Hypotheses of both theorems:
+      k >= 1                                          pool capacity 2^k
+      Conc.reach (pool_cfg kind (2^k) fuel ths) cf    cf is reachable by ANY sequence of thread choices; [ths] are
+                                                      arbitrary client programs of allocate / deallocate-a-held-object
+                                                      (any number of threads, up to and past the pool capacity)
+      pool_bound k kind (trace cf)                    position counters of the queue do not wrap
+    [heldby tr t]   objects returned to thread t by allocate and not yet passed by it to deallocate;
+    [avail a0 tr]   the preallocated objects and every object passed to deallocate, minus those handed out by
+                    allocate again or released to the heap;
+    [busy tr t]     thread t is inside allocate / deallocate. *)
+From Coq Require Import ZArith List Bool.
+From Coq Require String.
+Import String.StringSyntax.
+Local Open Scope string_scope.
+From LV Require Import Base.Conc Base.Events Model.Vyukov Model.Pools
+                       Proofs.VyukovArith Proofs.VyukovCore Proofs.PoolsProofs Proofs.PoolsSafe Proofs.PoolsTheorems.
 Import ListNotations.
 Local Open Scope Z_scope.
-Example C24_model_runs :
-  snd (Pools.run_case [2;0;0;100] [[[1];[1];[2;0]]; [[1];[2;0]]] [0;0;0;1;1;0;1]%nat 2000) = true.
-Proof. vm_compute. reflexivity. Qed.
+
+Theorem C24_pool_unique_holder :
+  forall (k : nat) (kind : Z) (fuel : nat) (ths : list (list pop)) cf,
+    (1 <= k)%nat ->
+    Conc.reach (pool_cfg kind (2 ^ Z.of_nat k) fuel ths) cf -> pool_bound k kind (Conc.trace cf) ->
+    let tr := Conc.trace cf in
+    (forall t, NoDup (heldby tr t)) /\
+    (forall t t' p, t <> t' -> In p (heldby tr t) -> ~ In p (heldby tr t')) /\
+    (forall t p, In p (heldby tr t) ->
+       ~ In p (avail (avail0 k (mkP kind (2 ^ Z.of_nat k) (length ths))) tr)).
+Proof. intros k kind fuel ths cf Hk Hr Hb. exact (pool_unique_holder k Hk kind fuel ths cf Hr Hb). Qed.
+Print Assumptions C24_pool_unique_holder.
+
+Theorem C24_pool_deallocated_available_again :
+  forall (k : nat) (kind : Z) (fuel : nat) (ths : list (list pop)) cf,
+    (1 <= k)%nat ->
+    Conc.reach (pool_cfg kind (2 ^ Z.of_nat k) fuel ths) cf -> pool_bound k kind (Conc.trace cf) ->
+    let tr := Conc.trace cf in
+    let g := Conc.shared cf in
+    let av := avail (avail0 k (mkP kind (2 ^ Z.of_nat k) (length ths))) tr in
+    NoDup av /\
+    exists qs : list Z,
+      NoDup qs /\
+      Z.of_nat (length qs) = posE g - posD g /\
+      (forall i, (i < length qs)%nat -> nth_error qs i = Some (datas g (cell k (posD g + Z.of_nat i)))) /\
+      (forall p, In p qs -> In p av) /\
+      (forall p, In p av -> In p qs \/ exists t, busy tr t = true) /\
+      ((forall t, busy tr t = false) -> forall p, In p av <-> In p qs).
+Proof. intros k kind fuel ths cf Hk Hr Hb. exact (pool_deallocated_available_again k Hk kind fuel ths cf Hr Hb). Qed.
+Print Assumptions C24_pool_deallocated_available_again.
+
+(** ** non-vacuity: concrete runs (capacity 2, three threads allocating past capacity and releasing) *)
+Example C24_nonvacuous_vyukov_queue_pool :
+  let ths := [[PAlloc; PAlloc; PDealloc 0]; [PAlloc; PDealloc 0; PAlloc]; [PAlloc]] in
+  let cf := fst (Conc.run 2000 0 [0;1;2;0;1;2;0;0;1;1;2;2]%nat (pool_cfg 0 (2 ^ Z.of_nat 1) 100 ths)) in
+  Conc.reach (pool_cfg 0 (2 ^ Z.of_nat 1) 100 ths) cf /\ pool_bound 1 0 (Conc.trace cf) /\
+  (forall t, busy (Conc.trace cf) t = false) /\
+  heldby (Conc.trace cf) 0%nat <> [] /\ heldby (Conc.trace cf) 1%nat <> [] /\ heldby (Conc.trace cf) 2%nat <> [].
+Proof.
+  cbv zeta. split; [apply Conc.run_reach|]. split; [unfold pool_bound; vm_compute; reflexivity|].
+  split.
+  - intros t. destruct t as [|[|[|t]]]; vm_compute; reflexivity.
+  - repeat split; vm_compute; discriminate.
+Qed.
+
+Example C24_nonvacuous_bounded_pool :
+  let ths := [[PAlloc; PAlloc; PAlloc; PDealloc 1]; [PAlloc; PDealloc 0]] in
+  let cf := fst (Conc.run 2000 0 [0;0;0;0;0;0;0;0;0;0;0;0;0;0;0;0;0;0;0;0;0;0;0;0;0;0;0;0;0;0;1]%nat (pool_cfg 2 (2 ^ Z.of_nat 1) 100 ths)) in
+  Conc.reach (pool_cfg 2 (2 ^ Z.of_nat 1) 100 ths) cf /\ pool_bound 1 2 (Conc.trace cf) /\
+  In (0%nat, EvCli "ret_alloc" [0]) (Conc.trace cf) /\
+  avail (avail0 1 (mkP 2 2 2)) (Conc.trace cf) <> [].
+Proof.
+  cbv zeta. split; [apply Conc.run_reach|]. split; [unfold pool_bound; vm_compute; reflexivity|].
+  split; [vm_compute; tauto|vm_compute; discriminate].
+Qed.
